@@ -62,7 +62,7 @@ Init ==
 \* St(pos) is "begin": a fresh converter is constructed and process() is entered
 TBegin ==
     /\ pos >= 1 /\ pos <= Len(R.steps) /\ St(pos).pt = "begin" /\ rpc \in {"idle", "lost"}
-    /\ LET A == C!Begin(St(pos).opts) IN
+    /\ LET A == IF St(pos).reuse THEN C!BeginReuse(St(pos).opts.ow) ELSE C!Begin(St(pos).opts) IN
        IF rpc = "idle" /\ ENABLED A
        THEN A /\ impl' = impl
        ELSE /\ opts' = St(pos).opts /\ rpc' = "lost" /\ fs0' = fs /\ status' = "none"
